@@ -15,7 +15,7 @@ use serde_json::{json, Value};
 
 const STREAM: u64 = 10;
 
-const CLASSES: [&str; 31] = [
+const CLASSES: [&str; 34] = [
     "honest",
     "kb-removed",
     "jwt-char",
@@ -47,6 +47,9 @@ const CLASSES: [&str; 31] = [
     "kb-nonce-other",
     "kb-aud-other",
     "kb-sd_hash-absent",
+    "jwt-extra-segment",
+    "part-edge-char",
+    "kb-claim-type-confusion",
 ];
 
 pub fn run(ctx: &Ctx) -> Report {
@@ -301,6 +304,44 @@ fn one_case(ctx: &Ctx, case: u64, l: &mut Local) {
                 }
                 t.kb = Some(api::sign_kb(halg, 0, &p, Some("kb+jwt")));
             }
+            "jwt-extra-segment" => {
+                // surplus segments behind the signature / in front of the header
+                let tail = *r.pick(&[".", ".A", ".e30", "..", ".AAAA.BBBB", ".junk"]);
+                if r.chance(80) {
+                    t.jwt.push_str(tail);
+                } else {
+                    t.jwt = format!("{}{}", &tail[1..], format!(".{}", t.jwt));
+                }
+            }
+            "part-edge-char" => {
+                // one blank / control / invisible / padding character at the very start or end of a part
+                let c = *r.pick(&[" ", "\t", "\n", "\r", "\r\n", "\u{a0}", "\u{feff}", "=", "\u{0}", "\u{200b}", "%20", "+"]);
+                let at_end = r.chance(50);
+                let edit = |s: &str| if at_end { format!("{s}{c}") } else { format!("{c}{s}") };
+                match r.below(3) {
+                    0 => t.jwt = edit(&t.jwt),
+                    1 if !t.disclosures.is_empty() => {
+                        let i = r.usize(t.disclosures.len());
+                        t.disclosures[i] = edit(&t.disclosures[i]);
+                    }
+                    _ => match &t.kb {
+                        Some(k) => t.kb = Some(edit(k)),
+                        None => t.jwt = edit(&t.jwt),
+                    },
+                }
+            }
+            "kb-claim-type-confusion" => {
+                let mut p = kb_payload(&t);
+                let field = *r.pick(&["nonce", "aud"]);
+                let want = if field == "nonce" { &nonce } else { &aud };
+                match serde_json::from_str::<Value>(want) {
+                    Ok(v) if !v.is_string() => p[field] = v,
+                    _ => {
+                        p.as_object_mut().map(|o| o.remove(field));
+                    }
+                }
+                t.kb = Some(api::sign_kb(halg, 0, &p, Some("kb+jwt")));
+            }
             "kb-on-unbound" => t.kb = Some(api::sign_kb(halg, 0, &kb_payload(&t), Some("kb+jwt"))),
             "kb-garbage" => t.kb = Some((*r.pick(&["a.b.c", "null", "e30.e30.AAAA", "x"])).to_string()),
             "kb-is-a-disclosure" => {
@@ -333,7 +374,7 @@ fn one_case(ctx: &Ctx, case: u64, l: &mut Local) {
             _ => {}
         }
         l.count(&format!("class.{class}"));
-        if !t.compact_representable() || t.jwt.split('.').count() != 3 {
+        if !t.compact_representable() || t.jwt.split('.').count() < 3 {
             l.count("excluded.not-expressible-in-both-grammars");
             continue;
         }
